@@ -257,6 +257,31 @@ def _impl(tier, seed, search):
         if ra_ != rb_: L.fail(f'form:{nm_}', f'{nm_}: list/tuple form differs from the array form ({ra_[0]}/{rb_[0]})', dict(callable=nm_))
     close('Twist3.exp(units)', lambda: Twist3.Revolute([0, 0, 1], [1, 2, 0]).exp(a, units='deg'), lambda: Twist3.Revolute([0, 0, 1], [1, 2, 0]).exp(ar), 1e-9)
     close('Twist2.exp(units)', lambda: Twist2.Revolute([1, 2]).exp(a, units='deg'), lambda: Twist2.Revolute([1, 2]).exp(ar), 1e-9)
+    # ---- a function's special-case shortcuts must not bypass the argument conversion: slerp at s = 0, 1 (forms and lengths) ---------
+    qa_, qb_ = np.array([0.5, 0.5, 0.5, 0.5]), np.array([1.0, 0, 0, 0])
+    for s_ in (0, 1, 0.0, 1.0, 0.5):
+        ref_ = run(lambda: b.slerp(qa_, qb_, s_), [])
+        for which in (0, 1):
+            for fname, fv in forms(list(qa_ if which == 0 else qb_)).items():
+                args_ = [fv, qb_] if which == 0 else [qa_, fv]
+                L.count('forms-slerp', key=(s_, which, fname))
+                got_ = run(lambda: b.slerp(args_[0], args_[1], s_), [])
+                if got_ != ref_: L.fail(f'form:slerp:{fname}', f'slerp at s={s_}: argument {which} given as {fname} gives a different result / type than the 1-D array form', dict(callable='slerp', s=s_, form=fname))
+            for k in (0, 1, 2, 3, 5, 8):
+                bad_ = list(range(1, k + 1)); args_ = [bad_, qb_] if which == 0 else [qa_, bad_]
+                L.count('wrong-length-slerp', key=(s_, which, k))
+                try: r_ = b.slerp(args_[0], args_[1], s_)
+                except Exception: continue
+                L.fail('wrong-length:slerp', f'slerp at s={s_}: a quaternion argument of length {k} was not rejected', dict(callable='slerp', s=s_, length=k), observed=repr(r_)[:80])
+    # list / tuple / array of angles given to SO2 with unit='deg' equals the scalar constructor element by element
+    for angs in ([30.0, 60.0], (90.0,), np.array([10.0, -20.0, 170.0])):
+        L.count('units-list', key=len(angs))
+        try:
+            Xl = SO2(angs, unit='deg'); want_ = [SO2(float(a_), unit='deg').A for a_ in angs]
+            okl = len(Xl) == len(angs) and all(np.allclose(np.asarray(x_, float), w_, rtol=0, atol=1e-12) for x_, w_ in zip(Xl.data, want_))
+            if not okl: L.fail('units:SO2(list,deg)', "SO2(list of angles, unit='deg') differs from SO2(angle, unit='deg') element by element", dict(angles=list(map(float, angs))))
+        except Exception as e:
+            L.fail('units-raises:SO2(list,deg)', f"SO2(list of angles, unit='deg') raised {type(e).__name__}", dict(angles=list(map(float, angs))))
     # ---- unknown order / unit rejected -----------------------------------------------------------------------------------
     REJ = {
         'rpy2r(order=zxy)': lambda: b.rpy2r(a3r, order='zxy'), 'rpy2tr(order=abc)': lambda: b.rpy2tr(a3r, order='abc'), 'tr2rpy(order=zyz)': lambda: b.tr2rpy(Rr, order='zyz'),
